@@ -4,11 +4,16 @@ C45 — model of `tornado.log.LogFormatter.format` with the default format strin
 Anchors: tornado/log.py `LogFormatter.format`, `_safe_unicode`, `LogFormatter.__init__` (colour table,
 hard-coded ANSI branch), `DEFAULT_FORMAT`.
 
-Text is a list of code points.  Everything the formatter delegates to the stdlib is an input of
-the model: the outcome of `record.getMessage()` (a `str`, or an exception whose `repr` is given),
-`repr(record.__dict__)`, `formatTime`, `formatException`.  Under Python 3 `getMessage()` returns a
-`str` or raises (a `bytes` result trips the `assert` → `AssertionError`, which is caught like any
-other exception), so `_safe_unicode` is only ever applied to `str` and is the identity there.
+Text is a list of code points.  Everything the formatter delegates to the stdlib or to user objects is
+an input of the model, and the calls that run user code MAY RAISE: the outcome of `record.getMessage()`
+(a `str`, a non-`str`, or an exception), of `repr(e)` for that exception and of `repr(record.__dict__)`
+(each a `str` or an exception — an argument's `__repr__` is user code).  `formatTime`, `formatException`
+are total stdlib inputs.  Exceptions carry their class name and whether the class derives from
+`Exception` (`except Exception` does not catch `KeyboardInterrupt`/`SystemExit`/other `BaseException`s).
+
+`format` models the code AFTER the two `fix:` commits of known_findings/C45.json (`_safe_repr` in the
+"Bad message" fallback; a bytes `exc_text` is split on `b"\n"`); `formatUnfixed` models the code before
+them (the fallback's `repr`s unprotected, `bytes.split("\n")` → `TypeError`).
 -/
 namespace TornadoModel.C45
 
@@ -55,11 +60,34 @@ def replaceNl : Str → Str
   | [] => []
   | c :: cs => if c = cLf then cLf :: cSp :: cSp :: cSp :: cSp :: replaceNl cs else c :: replaceNl cs
 
-/-- outcome of `record.getMessage()` followed by the `assert isinstance(message, str)` -/
-inductive Msg where
-  | ok (s : Str)                    -- a `str`
-  | raised (excRepr : Str)          -- any `Exception`; `repr(e)` is given
+/-- a raised exception: class name, and whether the class derives from `Exception` -/
+structure Exc where
+  name : Str
+  isExc : Bool
+  deriving Repr, DecidableEq
+
+/-- outcome of a call into user code that returns text (`repr(x)`): a `str`, or an exception -/
+inductive Outcome where
+  | ok (s : Str)
+  | raised (e : Exc)
   deriving Repr
+
+/-- outcome of `record.getMessage()` -/
+inductive Msg where
+  | ok (s : Str)                          -- a `str`
+  | notStr                                -- a non-`str` (e.g. `bytes`): the `assert` raises `AssertionError()`
+  | raised (e : Exc) (excRepr : Outcome)  -- raised `e`; `repr(e)` (evaluated only by the fallback) is given
+  deriving Repr
+
+/-- `record.exc_text` before the call (`None` is `.str []`: both are falsy) -/
+inductive ExcText where
+  | str (s : Str)
+  | bytes (b : List Nat)
+  deriving Repr
+
+def ExcText.truthy : ExcText → Bool
+  | .str s => !s.isEmpty
+  | .bytes b => !b.isEmpty
 
 structure Record where
   levelname : Str
@@ -68,12 +96,26 @@ structure Record where
   module : Str
   lineno : Int
   msg : Msg
-  dictRepr : Str           -- `repr(record.__dict__)` at the time of the call (stdlib)
+  dictRepr : Outcome       -- `repr(record.__dict__)` at the time of the call (runs the `__repr__` of msg/args)
   excInfo : Option Str     -- `self.formatException(record.exc_info)` when `record.exc_info` is truthy (stdlib)
-  excText : Str            -- `record.exc_text` before the call (`None` and `""` are both falsy: `[]`)
+  excText : ExcText
   deriving Repr
 
 def lit (s : String) : Str := s.toList.map Char.toNat
+
+def assertionError : Exc := ⟨lit "AssertionError", true⟩
+def typeError : Exc := ⟨lit "TypeError", true⟩
+
+/-- `try: body  except Exception as e: handler(e)` — anything that is not an `Exception` passes through -/
+def tryExcept {α} (body : Except Exc α) (handler : Exc → Except Exc α) : Except Exc α :=
+  match body with
+  | .ok a => .ok a
+  | .error e => if e.isExc then handler e else .error e
+
+/-- a call into user code, as a computation that may raise -/
+def Outcome.call : Outcome → Except Exc Str
+  | .ok s => .ok s
+  | .raised e => .error e
 
 /-- `DEFAULT_COLORS` -/
 def colorCode (levelno : Int) : Option Nat :=
@@ -93,34 +135,113 @@ def level1 (levelname : Str) : Str :=
   | [] => [cSp]
   | c :: _ => [c]
 
-/-- the `try … except Exception` around `getMessage`: `record.message` -/
-def message (r : Record) : Str :=
+/-- the body of the `try`: `message = record.getMessage(); assert isinstance(message, str)`;
+    `_safe_unicode` is the identity on `str` -/
+def getMessageChecked (r : Record) : Except Exc Str :=
   match r.msg with
-  | .ok s => s                       -- `_safe_unicode` is the identity on `str`
-  | .raised e => lit "Bad message (" ++ e ++ lit "): " ++ r.dictRepr
+  | .ok s => .ok s
+  | .notStr => .error assertionError
+  | .raised e _ => .error e
 
-/-- `self._fmt % record.__dict__` for `DEFAULT_FORMAT` -/
+/-- `repr(e)` for the exception the `try` body raised -/
+def excRepr (r : Record) : Outcome :=
+  match r.msg with
+  | .raised _ o => o
+  | _ => .ok (lit "AssertionError()")
+
+/-- `_safe_repr(obj)` (fix): `try: return repr(obj)  except Exception: return "<unprintable %s object>" % type(obj).__name__` -/
+def safeRepr (o : Outcome) (typeName : Str) : Except Exc Str :=
+  tryExcept o.call (fun _ => .ok (lit "<unprintable " ++ typeName ++ lit " object>"))
+
+def badMessage (e d : Str) : Str := lit "Bad message (" ++ e ++ lit "): " ++ d
+
+/-- `record.message` — the `try … except Exception as e` around `getMessage`, with the FIXED fallback
+    `"Bad message (%s): %s" % (_safe_repr(e), _safe_repr(record.__dict__))` -/
+def message (r : Record) : Except Exc Str :=
+  tryExcept (getMessageChecked r) (fun e => do
+    let a ← safeRepr (excRepr r) e.name
+    let b ← safeRepr r.dictRepr (lit "dict")
+    pure (badMessage a b))
+
+/-- the same before the fix: `f"Bad message ({e!r}): {record.__dict__!r}"` evaluated unprotected in the handler -/
+def messageUnfixed (r : Record) : Except Exc Str :=
+  tryExcept (getMessageChecked r) (fun _ => do
+    let a ← (excRepr r).call
+    let b ← r.dictRepr.call
+    pure (badMessage a b))
+
+/-- `self._fmt % record.__dict__` for `DEFAULT_FORMAT`, up to the message -/
 def header (colorOn : Bool) (r : Record) : Str :=
   let (color, endColor) := colors colorOn r.levelno
   color ++ [91] ++ level1 r.levelname ++ [cSp] ++ r.asctime ++ [cSp] ++ r.module ++ [58] ++ intStr r.lineno
     ++ [93] ++ endColor ++ [cSp]
 
 /-- `record.exc_text` after `if record.exc_info: if not record.exc_text: record.exc_text = formatException(...)` -/
-def effExcText (r : Record) : Str :=
+def effExcText (r : Record) : ExcText :=
   match r.excInfo with
-  | some t => if r.excText.isEmpty then t else r.excText
+  | some t => if r.excText.truthy then r.excText else .str t
   | none => r.excText
 
-/-- the string before the final `replace` -/
-def assembled (colorOn : Bool) (r : Record) : Str :=
-  let formatted := header colorOn r ++ message r
-  let exc := effExcText r
-  if exc.isEmpty then formatted
-  else joinNl (rstrip formatted :: splitNl exc)
+/-- strict UTF-8 decoding (`bytes.decode("utf-8")`) -/
+def utf8Decode (b : List Nat) : Option Str :=
+  if b.all (· < 256) then
+    (String.fromUTF8? (ByteArray.mk (b.map UInt8.ofNat).toArray)).map (fun s => s.toList.map Char.toNat)
+  else none
 
-/-- `LogFormatter.format(record)`: every statement of the method is covered; the only operation that can
-    raise for the records of this model (`getMessage`) is inside the `try`, so the result is always a string. -/
-def format (colorOn : Bool) (r : Record) : Except Str Str :=
-  .ok (replaceNl (assembled colorOn r))
+def hexDigit (n : Nat) : Nat := if n < 10 then 48 + n else 87 + n
+
+/-- `repr(b)` of a `bytes` object (CPython `PyBytes_Repr`) -/
+def bytesRepr (b : List Nat) : Str :=
+  let q : Nat := if b.contains 39 && !b.contains 34 then 34 else 39
+  [98, q] ++ b.flatMap (fun c =>
+    if c = q ∨ c = 92 then [92, c] else if c = 9 then [92, 116] else if c = 10 then [92, 110]
+    else if c = 13 then [92, 114] else if c < 32 ∨ 127 ≤ c then [92, 120, hexDigit (c / 16), hexDigit (c % 16)]
+    else [c]) ++ [q]
+
+/-- `_safe_unicode(ln)` for a `bytes` line: UTF-8, or `repr` on `UnicodeDecodeError` -/
+def safeUnicodeBytes (b : List Nat) : Str :=
+  match utf8Decode b with
+  | some s => s
+  | none => bytesRepr b
+
+/-- `[_safe_unicode(ln) for ln in record.exc_text.split(sep)]` with the FIXED separator
+    (`b"\n"` for bytes, `"\n"` otherwise); `_safe_unicode` is the identity on `str` -/
+def excLines : ExcText → List Str
+  | .str s => splitNl s
+  | .bytes b => (splitNl b).map safeUnicodeBytes
+
+/-- before the fix: `record.exc_text.split("\n")` on a `bytes` object raises `TypeError` -/
+def excLinesUnfixed : ExcText → Except Exc (List Str)
+  | .str s => .ok (splitNl s)
+  | .bytes _ => .error typeError
+
+/-- the string before the final `replace`, given `record.message` and the exception lines -/
+def assembleWith (colorOn : Bool) (r : Record) (m : Str) (lines : Option (List Str)) : Str :=
+  let formatted := header colorOn r ++ m
+  match lines with
+  | none => formatted
+  | some ls => joinNl (rstrip formatted :: ls)
+
+/-- the string before the final `replace` (fixed code), given `record.message` -/
+def assembled (colorOn : Bool) (r : Record) (m : Str) : Str :=
+  let exc := effExcText r
+  assembleWith colorOn r m (if exc.truthy then some (excLines exc) else none)
+
+/-- `LogFormatter.format(record)` after the fixes: every statement of the method, in order.  The calls that
+    can raise are `getMessage()`/`assert` (inside the `try`) and the two `repr`s of the fallback (inside
+    `_safe_repr`); only a non-`Exception` (`KeyboardInterrupt`, …) raised by user code gets out. -/
+def format (colorOn : Bool) (r : Record) : Except Exc Str := do
+  let m ← message r
+  pure (replaceNl (assembled colorOn r m))
+
+/-- `LogFormatter.format(record)` BEFORE the fixes (what /repo does). -/
+def formatUnfixed (colorOn : Bool) (r : Record) : Except Exc Str := do
+  let m ← messageUnfixed r
+  let exc := effExcText r
+  if exc.truthy then
+    let ls ← excLinesUnfixed exc
+    pure (replaceNl (assembleWith colorOn r m (some ls)))
+  else
+    pure (replaceNl (assembleWith colorOn r m none))
 
 end TornadoModel.C45
